@@ -15,7 +15,8 @@ def demo(wt, d, k):
         txt = open(f).read()
         if "fn main" in txt:
             shutil.copy(f, os.path.join(wt, "examples", f"demo_{k}.rs"))
-            rc, out = sh(f"cargo run --offline -q --example demo_{k}", wt, 600)
+            rel = " --release" if os.environ.get("DEMO_RELEASE") else ""
+            rc, out = sh(f"cargo run --offline -q{rel} --example demo_{k}", wt, 900)
             os.remove(os.path.join(wt, "examples", f"demo_{k}.rs"))
             return rc == 0, out[-1500:]
         # a #[test] module: append to the file named in a marker comment or in meta
